@@ -26,8 +26,9 @@ ItemVis == {"", "pub", "pub(crate)"}
 Locs == {"same", "child", "sibling", "parent", "cousin", "other-crate"}
 \* via: the name the probe uses: "name" = the user-visible name D::T; "inmod" (module inputs only) = the trait itself, D::m::T -
 \* probed only from locations that can name the module m at all, so that the verdict is about the trait
-Inputs0 == { i \in [mode : Modes, vis : UNION { VisFor(m) : m \in Modes }, itemvis : ItemVis, loc : Locs, via : {"name", "inmod"}] :
-             i.vis \in VisFor(i.mode) /\ (i.via = "inmod" => i.mode = "mod") }
+\* exp: the invocation also exports its mocks (`export` option / the entrait_export macro) - that must not touch the visibility
+Inputs0 == { i \in [mode : Modes, vis : UNION { VisFor(m) : m \in Modes }, itemvis : ItemVis, loc : Locs, via : {"name", "inmod"}, exp : {"no", "option", "macro"}] :
+             i.vis \in VisFor(i.mode) /\ (i.via = "inmod" => i.mode = "mod") /\ (i.exp # "no" => i.mode \in {"fn", "mod"} /\ i.vis \in {"", "pub(crate)"}) }
 
 P == <<"cases", "p">>
 D == P \o <<"d">>
@@ -56,7 +57,7 @@ ResolveProbe == pc = "probe" /\ pc' = "done" /\ UNCHANGED <<i, items>>
 Spec == Init /\ [][GenTraitVisibility \/ ResolveProbe]_vars
 \* never wider, never narrower than requested - independent of the item's own visibility
 Refines == pc = "done" => PredAccessible(i) = R!Accessible(i.vis, D, FromPath(i.loc), SameCrate(i.loc))
-IndependentOfItemVis == \A a, b \in Inputs : (a.mode = b.mode /\ a.vis = b.vis /\ a.loc = b.loc /\ a.via = b.via) => PredAccessible(a) = PredAccessible(b)
+IndependentOfItemVis == \A a, b \in Inputs : (a.mode = b.mode /\ a.vis = b.vis /\ a.loc = b.loc /\ a.via = b.via /\ a.exp = b.exp) => PredAccessible(a) = PredAccessible(b)
 ASSUME IndependentOfItemVis
 
 ASSUME DumpCases => ndJsonSerialize(IOEnv.OUT, SetToSeq({ [in |-> x, l1 |-> L1In(x), expect |-> R!Accessible(x.vis, D, FromPath(x.loc), SameCrate(x.loc)),
